@@ -40,7 +40,7 @@ Definition enc_frame (f : frame) : val :=
 Definition run_C38 (i : val) : val :=
   match dec_input i with
   | Some (e, ops) =>
-    let '(fr, res, _, _) := run_handler e ops in VL [VL (map enc_frame fr); vLZ res]
+    let '(fr, res, _) := run_handler e ops in VL [VL (map enc_frame fr); vLZ res]
   | None => VErr 0
   end.
 
@@ -83,15 +83,5 @@ Definition prop_C38 (i o : val) : bool :=
   | _, _ => false
   end.
 
-(* known-finding classes, decided on the input (through the model's handler state at completion):
-   1 = trailers were declared (Trailer header or "Trailer:" prefix) but at handler completion no declared key has an
-       encodable value: the trailers HEADERS frame has an empty header block, nothing is written, END_STREAM is never sent
-   2 = a declared trailer is a connection-specific field with a value: it is sent in the trailers HEADERS frame *)
-Definition kf_frames (fr : list frame) (lost : bool) : Z :=
-  if lost then 1
-  else if forallb (fun f => match f with FH _ fl => fields_ok fl | _ => true end) fr then 0 else 2.
-Definition kf_C38 (i : val) : Z :=
-  match dec_input i with
-  | Some (e, ops) => let '(fr, _, _, lost) := run_handler e ops in kf_frames fr lost
-  | None => 0
-  end.
+(* no open finding class: the two defects found here were repaired in /repo (known_findings/C38.txt, fixed: lines) *)
+Definition kf_C38 (i : val) : Z := 0.
